@@ -188,6 +188,7 @@ func init() {
 		Trusted: []string{"verif/model (ASCII host path only)"},
 		Body: func(c *fw.Ctx) {
 			run := func(label, scheme, host string, maxDev int) {
+				c.CurCase(func() *fw.Case { return &fw.Case{Kind: "c09", S: fw.Strs(scheme, host), N: []int{maxDev}} })
 				c.Eval()
 				f, n, acc := c09Eval(scheme, host, maxDev)
 				c.Count("host_spellings_parsed", int64(n))
